@@ -71,7 +71,9 @@ def finish(eng, prop, args, seed, results, wall):
                 elif ob["status"] == "unsat":
                     vacuous.append(ob["oid"])
                 else:
-                    undecided.append({"oid": ob["oid"], "why": "cover undecided"})
+                    # satisfiability of a quantified precondition could not be decided either way: reported,
+                    # not fatal (only a precondition that is definitely unsatisfiable is a vacuity error)
+                    inconclusive.append(ob["oid"])
                 continue
             obligations += 1
             by_kind[ob["kind"]] = by_kind.get(ob["kind"], 0) + 1
